@@ -6,11 +6,12 @@ import "github.com/cuteLittleDevil/go-jt808/shared/consts"
 
 func init() {
 	vrtHarnesses["VerifC01Dense"] = VerifC01Dense
+	vrtHarnesses["VerifC01Header"] = VerifC01Header
+	vrtHarnesses["VerifC01Long"] = VerifC01Long
+	vrtHarnesses["VerifC01ViaDecode"] = VerifC01ViaDecode
 }
 
-// c01Source builds "a header taken from a decoded terminal message": whatever the real
-// Header.decode makes of an arbitrary header byte string of the right length.
-func c01Source(ver, frag int) (*Header, []byte) {
+func c01HeaderLen(ver, frag int) int {
 	n := 12
 	if ver == 1 {
 		n = 17
@@ -18,8 +19,14 @@ func c01Source(ver, frag int) (*Header, []byte) {
 	if frag == 1 {
 		n += 4
 	}
-	src := vrt_Bytes("srcHeader", n)
-	// the property word must announce the layout we chose (version bit 14, fragment bit 13)
+	return n
+}
+
+// c01Source builds "a header taken from a decoded terminal message": whatever the real
+// Header.decode makes of an arbitrary header byte string of the right length for the layout
+// announced by its own property word (version bit 14, fragment bit 13).
+func c01Source(ver, frag int) (*Header, []byte) {
+	src := vrt_Bytes("srcHeader", c01HeaderLen(ver, frag))
 	vrt_Assume((src[2]>>6)&1 == byte(ver))
 	vrt_Assume((src[2]>>5)&1 == byte(frag))
 	h := &Header{Property: &BodyProperty{}}
@@ -28,7 +35,42 @@ func c01Source(ver, frag int) (*Header, []byte) {
 	return h, src
 }
 
-// VerifC01Dense: every byte of a short body is free (all 256 values), header bytes free.
+// c01Check frames body with h and asserts the property on the result.
+func c01Check(h *Header, replyID, pserial uint16, body []byte) []byte {
+	wantPhone := h.TerminalPhoneNo
+	wantVer := h.ProtocolVersion
+	h.ReplyID = replyID
+	h.PlatformSerialNumber = pserial
+
+	out := h.Encode(body)
+	vrt_Observe("framed", out)
+
+	vrt_Assert(len(out) >= 2 && out[0] == 0x7e && out[len(out)-1] == 0x7e, "frame must start and end with 0x7e")
+	for i := 1; i < len(out)-1; i++ {
+		vrt_Assert(out[i] != 0x7e, "interior delimiter in framed bytes")
+	}
+	m := NewJTMessage()
+	err := m.Decode(out)
+	vrt_Assert(err == nil, "framed message must decode")
+	vrt_Assert(m.Header.ID == replyID, "decoded ID differs")
+	vrt_Assert(vrt_StrEq(m.Header.TerminalPhoneNo, wantPhone), "decoded phone differs")
+	vrt_Assert(m.Header.ProtocolVersion == wantVer, "decoded version differs")
+	vrt_Assert(m.Header.SerialNumber == pserial, "decoded serial differs")
+	vrt_Assert(vrt_BytesEq(m.Body, body), "decoded body differs")
+	vrt_Observe("decodedBody", m.Body)
+	vrt_Cover("v2019", wantVer == consts.JT808Protocol2019)
+	vrt_Cover("checksum-is-7e", len(out) >= 3 && out[len(out)-3] == 0x7d && out[len(out)-2] == 0x02)
+	vrt_Cover("checksum-is-7d", len(out) >= 3 && out[len(out)-3] == 0x7d && out[len(out)-2] == 0x01)
+	return out
+}
+
+func c01U16(label string) (uint16, []byte) {
+	b := vrt_Bytes(label, 2)
+	return uint16(b[0])<<8 | uint16(b[1]), b
+}
+
+// VerifC01Dense (F1): every byte of a short body free over all 256 values; header, ID and serial
+// bytes free but not special for the escape scan.
 func VerifC01Dense() {
 	ver := vrt_Choose("ver", 2)
 	frag := vrt_Choose("frag", 2)
@@ -38,36 +80,98 @@ func VerifC01Dense() {
 	}
 	n := vrt_Choose("n", maxN+1)
 	h, src := c01Source(ver, frag)
-	// phone bytes and the rest of the header are not special for the escape scan here
-	for _, b := range src {
-		vrt_Assume(b != 0x7e && b != 0x7d)
-	}
-	idHi, idLo := vrt_Byte("replyIDhi"), vrt_Byte("replyIDlo")
-	vrt_Assume(idHi != 0x7e && idHi != 0x7d && idLo != 0x7e && idLo != 0x7d)
-	h.ReplyID = uint16(idHi)<<8 | uint16(idLo)
-	vrt_Assume(h.ReplyID != 0) // 0 is not a message ID
-	psHi, psLo := vrt_Byte("pserialHi"), vrt_Byte("pserialLo")
-	vrt_Assume(psHi != 0x7e && psHi != 0x7d && psLo != 0x7e && psLo != 0x7d)
-	h.PlatformSerialNumber = uint16(psHi)<<8 | uint16(psLo)
-	ps := h.PlatformSerialNumber
+	vrt_Class("kfC01FragLong", frag == 1 && n >= 1000)
+	id, idb := c01U16("replyID")
+	vrt_Assume(id != 0) // 0 is not a message ID
+	ps, psb := c01U16("platformSerial")
+	vrtKSpecial("hdr", 0, vrtEscSpecial, src, idb, psb)
 	body := vrt_Bytes("body", n)
-	wantPhone := h.TerminalPhoneNo
-	wantVer := h.ProtocolVersion
-
-	out := h.Encode(body)
-
-	vrt_Assert(len(out) >= 2 && out[0] == 0x7e && out[len(out)-1] == 0x7e, "frame must start and end with 0x7e")
-	for i := 1; i < len(out)-1; i++ {
-		vrt_Assert(out[i] != 0x7e, "interior delimiter in framed bytes")
-	}
-	m := NewJTMessage()
-	err := m.Decode(out)
-	vrt_Assert(err == nil, "framed message must decode")
-	vrt_Assert(m.Header.ID == h.ReplyID, "decoded ID differs")
-	vrt_Assert(vrt_StrEq(m.Header.TerminalPhoneNo, wantPhone), "decoded phone differs")
-	vrt_Assert(m.Header.ProtocolVersion == wantVer, "decoded version differs")
-	vrt_Assert(m.Header.SerialNumber == ps, "decoded serial differs")
-	vrt_Assert(vrt_BytesEq(m.Body, body), "decoded body differs")
-	vrt_Cover("v2019", wantVer == consts.JT808Protocol2019)
+	out := c01Check(h, id, ps, body)
 	vrt_Cover("escaped", len(out) > len(src)+n+3)
+	vrt_Cover("fragmented-source", frag == 1)
+	vrt_Cover("encrypted-source", h.Property.EncryptMethod != 0)
+}
+
+// VerifC01Header (F2): special bytes anywhere in the payload (ID, property flags, phone, serial,
+// body, and the derived checksum), at most K at a time, every position combination.
+func VerifC01Header() {
+	ver := vrt_Choose("ver", 2)
+	frag := vrt_Choose("frag", 2)
+	k, maxN := 2, 1
+	if vrt_Tier() > 0 {
+		k, maxN = 3, 2
+	}
+	n := vrt_Choose("n", maxN+1)
+	h, src := c01Source(ver, frag)
+	vrt_Class("kfC01FragLong", frag == 1 && n >= 1000)
+	id, idb := c01U16("replyID")
+	vrt_Assume(id != 0)
+	ps, psb := c01U16("platformSerial")
+	body := vrt_Bytes("body", n)
+	// the bytes of the source header that reach the output are the phone bytes (and the flag bits)
+	start, plen := 4, 6
+	if ver == 1 {
+		start, plen = 5, 10
+	}
+	phone := src[start : start+plen]
+	vrtKSpecial("payload", k, vrtEscSpecial, idb, phone, psb, body)
+	out := c01Check(h, id, ps, body)
+	vrt_Cover("two-adjacent-specials", vrtEscSpecial(psb[0]) && vrtEscSpecial(psb[1]))
+	vrt_Cover("special-in-phone", vrtEscSpecial(phone[0]))
+	vrt_Cover("non-bcd-phone", phone[0]&0x0f > 9)
+	_ = out
+}
+
+// VerifC01Long (F3): long bodies around the 1000 / 1023 boundaries; the first two and last two
+// body bytes and the checksum may be special, the rest of the body is symbolic but not special.
+func VerifC01Long() {
+	ver := vrt_Choose("ver", 2)
+	frag := vrt_Choose("frag", 2)
+	lens := []int{999, 1000, 1023}
+	if vrt_Tier() > 0 {
+		lens = []int{255, 256, 257, 511, 512, 513, 998, 999, 1000, 1001, 1022, 1023}
+	}
+	n := lens[vrt_Choose("len", len(lens))]
+	h, src := c01Source(ver, frag)
+	vrt_Class("kfC01FragLong", frag == 1 && n >= 1000)
+	id, idb := c01U16("replyID")
+	vrt_Assume(id != 0)
+	ps, psb := c01U16("platformSerial")
+	vrtKSpecial("hdr", 0, vrtEscSpecial, src, idb, psb)
+	// leading-zero stripping of the phone is covered by the other harnesses; keep one shape here
+	if ver == 1 {
+		vrt_Assume(src[5]>>4 != 0)
+	} else {
+		vrt_Assume(src[4]>>4 != 0)
+	}
+	body := vrt_Bytes("body", n)
+	vrtKSpecial("mid", 0, vrtEscSpecial, body[2:n-2])
+	vrtKSpecial("ends", 2, vrtEscSpecial, body[0:2], body[n-2:n])
+	c01Check(h, id, ps, body)
+	vrt_Cover("long-fragmented-source", frag == 1 && n >= 1000)
+	vrt_Cover("len-1023", n == 1023)
+}
+
+// VerifC01ViaDecode: the source header comes out of a full JTMessage.Decode of a symbolic frame.
+func VerifC01ViaDecode() {
+	ver := vrt_Choose("ver", 2)
+	frag := vrt_Choose("frag", 2)
+	hl := c01HeaderLen(ver, frag)
+	srcBody := vrt_Choose("srcBodyLen", 3)
+	frame := vrt_Bytes("srcFrame", 1+hl+srcBody+1+1)
+	vrt_Assume(frame[0] == 0x7e && frame[len(frame)-1] == 0x7e)
+	vrtKSpecial("frame", 0, vrtEscSpecial, frame[1:len(frame)-1])
+	vrt_Assume((frame[3]>>6)&1 == byte(ver))
+	vrt_Assume((frame[3]>>5)&1 == byte(frag))
+	src := NewJTMessage()
+	vrt_Assume(src.Decode(frame) == nil)
+	n := vrt_Choose("n", 3)
+	vrt_Class("kfC01FragLong", frag == 1 && n >= 1000)
+	id, idb := c01U16("replyID")
+	vrt_Assume(id != 0)
+	ps, psb := c01U16("platformSerial")
+	vrtKSpecial("hdr", 0, vrtEscSpecial, idb, psb)
+	body := vrt_Bytes("body", n)
+	c01Check(src.Header, id, ps, body)
+	vrt_Cover("source-with-body", srcBody > 0)
 }
